@@ -21,5 +21,9 @@ def replay_obligation(prop, ob):
 
 def replay_file(path):
     rep = json.load(open(path))
+    if str(rep.get("obligation", "")).startswith("extra:bounded-differential-certs-v1"):
+        import os, subprocess
+        here = os.path.dirname(os.path.dirname(os.path.abspath(__file__)))
+        return subprocess.call(["/venv/bin/python", os.path.join(here, "bounded", "certs_v1.py"), "--replay", path])
     print(json.dumps({k: rep.get(k) for k in ("property", "obligation", "goal", "replay", "replay_confirmed")}, indent=1))
     return 0
